@@ -36,13 +36,14 @@ RULE = ("junk lines: all %d strings of length <= 3 over the alphabet {. : \" ' -
 ASSUMPTIONS = [
     "a junk line that happens to parse becomes an additional item; genuine items must then still appear, unchanged and in order, as a subsequence",
     "session mnemonics of genuine items may receive a duplicate suffix when a junk line parses to the same name (original mnemonics may not change)",
+    "files read by path are compared with the same file without the junk, read by path as well; UTF-8 / ASCII files are decoded without the optional detector, 8-bit files depend on it (open finding, chardet 7.6 installed here)",
 ]
 EXHAUSTIVE = "all junk strings of length <= 3 over the 15-character alphabet, each in a ~V, ~W, ~P and custom section"
 REQUIRED = ["reads_with_flag", "reads_without_flag", "without_flag_header_errors", "genuine_items_checked",
             "data_comparisons", "plans_with_repeated_junk_line", "plans_with_many_junk_lines_in_one_section", "reads_of_files_by_path", "section_V", "section_W", "section_P", "section_X"]
 SOFT_DEADLINE = {"quick": 90, "thorough": 1500}
 LEVEL_TEXT = ("Fault enumeration: the short junk-line space is enumerated completely at every section kind; longer lines are "
-              "sampled; each faulty file is compared with its junk-free base (conservation of genuine items and data).")
+              "sampled; each faulty file is compared with its junk-free base (conservation of genuine items and data). Hunter rounds: the same junk in files read by path (UTF-8 with non-ASCII genuine text, junk that looks like escape sequences or charset declarations, floods that push the first non-ASCII byte beyond the sampled bytes), stored as UTF-8, UTF-16 without BOM and cp1252.")
 LEVEL_NOTE = "Holds for the junk lines and sites enumerated; the junk-free read of the same file is the reference for 'genuine item'."
 TECHNIQUE = "runtime monitoring: junk-line fault enumeration with a conservation checker against the fault-free read and an exception-class monitor"
 
